@@ -24,7 +24,7 @@ ASSUMPTIONS = [
     "feature text that feaLib rejects for reasons unrelated to the writers (FeatureLibError with writers off as well) is discarded and counted",
 ]
 N = {"quick": (8, 200), "thorough": (16, 1000)}
-FLOORS = {"marker-in-the-middle": 0.04, "hand-written-without-marker": 0.15, "marker-present": 0.12, "indic-handwritten": 0.05}
+FLOORS = {"marker-in-the-middle": 0.04, "hand-written-without-marker": 0.15, "marker-present": 0.12, "indic-handwritten": 0.05}  # a third of the measured frequency: a starving generator is a harness error, sampling noise is not
 
 GL = ["A", "B", "V", "a", "a.alt", "f_i", "period", "acutecomb", "gravecomb", "alef-ar", "beh-ar", "ka-deva", "kha-deva", "anusvara-deva", "nukta-deva"]
 U = {"A": 0x41, "B": 0x42, "V": 0x56, "a": 0x61, "period": 0x2E, "acutecomb": 0x301, "gravecomb": 0x300, "alef-ar": 0x627, "beh-ar": 0x628,
